@@ -468,6 +468,18 @@ class NF:
                 else:
                     items.append(self.simplify(subst(body, var, x), env))
             return mk_list(items)
+        # eta for elements: [C(p=v.p, ...) for v in xs] -> xs   when xs : list[C]
+        if body[0] == "ctor":
+            st = self.type_of(src, env)
+            try:
+                bc = self.prog.cls(body[1])
+            except Exception:
+                bc = None
+            if bc is not None and isinstance(st, tuple) and st[0] == "list" and st[1] is bc and bc.find_method("__init__")[1] is None:
+                args = ctor_args(body)
+                params = bc.init_params()
+                if params and all(args.get(p) == ("attr", var, p) for p in params) and set(args) == set(params):
+                    return src
         return ("map", self._canon(body, var), src)
 
     def _canon(self, body, var):
